@@ -10,7 +10,7 @@
 (*                dotted text of l (pinned)                                *)
 (***************************************************************************)
 EXTENDS Integers, Sequences, FiniteSets, TLC
-CONSTANTS PrefixRule, MaxHist
+CONSTANTS PrefixRule, MaxHist, PairsAllowed     \* PairsAllowed: programs over ordered pairs of libraries as well as single ones
 
 \* the static world: modules and the command names their source text defines
 Mods == { <<"vlib_a", "cmds">>, <<"vlib_a", "sub", "cmds">>, <<"vlib_ab", "cmds">>, <<"vlib_c">>,
@@ -26,7 +26,7 @@ Names(m) == CASE m = <<"vlib_a", "cmds">> -> {"Foo", "Bar"}
 DynMods == { <<"vlib_a_extra">>, <<"userscript">> }
 Libs == { <<"vlib_a">>, <<"vlib_ab">>, <<"vlib_a", "sub">>, <<"vlib_c">>,
           <<"mpilot", "libraries", "eems", "csv">>, <<"mpilot", "libraries", "eems", "netcdf">> }
-LibSets == {<<l>> : l \in Libs} \cup {<<a, b>> : a \in Libs, b \in Libs}
+LibSets == {<<l>> : l \in Libs} \cup (IF PairsAllowed THEN {<<a, b>> : a \in Libs, b \in Libs} ELSE {})
 
 IsPrefixSeq(l, m) == Len(l) <= Len(m) /\ \A i \in 1..Len(l) : l[i] = m[i]
 \* "a.b".startswith("a") on dotted names: every full component matches, and the last requested component is a string prefix
@@ -56,7 +56,11 @@ NewProgram(ls) ==
            dup == \E p, q \in sel : p[2] = q[2] /\ p[1] # q[1]
        IN /\ registry' = reg
           /\ hist' = Append(hist, <<"program", ls, IF dup THEN <<"error", {}>> ELSE <<"table", sel>>>>)
+\* a user adds an entry to the (public) command table of an earlier program: that program's own business only
+MutateTable(k) == /\ Len(hist) < MaxHist /\ k \in 1..Len(hist) /\ hist[k][1] = "program" /\ hist[k][3][1] = "table"
+                  /\ hist' = Append(hist, <<"mutate", k, <<"none", {}>>>>) /\ UNCHANGED registry
 Next == \/ \E m \in Mods : ImportModule(m)
+        \/ \E k \in 1..MaxHist : MutateTable(k)
         \/ \E m \in DynMods, n \in {"Foo", "Zed"} : DefineClass(m, n)
         \/ \E ls \in LibSets : NewProgram(ls)
 \* C19
